@@ -1,22 +1,28 @@
 #!/bin/bash
 # usage: tools/sens.sh <check-id> <patch-file | -R:<commit>> [extra check args]
-# Applies a change to /repo's working tree, runs the check, restores /repo.
+# Applies a change in a scratch worktree of /repo HEAD (outside /repo and /verif), runs the
+# check against that tree (VERIF_REPO), removes the worktree. /repo itself is never touched,
+# evidence and replays of such runs go to scratch directories.
 set -u
 id=$1; what=$2; shift 2
-cd /repo || exit 2
-if [ -n "$(git status --porcelain)" ]; then echo "repo dirty"; exit 2; fi
+wt=/tmp/sens-wt-$$
+git -C /repo worktree add -q --detach $wt HEAD || exit 2
+cleanup() { git -C /repo worktree remove --force $wt >/dev/null 2>&1; rm -rf /tmp/sens-verif-$$; }
+trap cleanup EXIT
 if [[ "$what" == -R:* ]]; then
-  git show "${what#-R:}" | git apply -R || { echo "cannot revert"; git checkout -- .; exit 2; }
+  git -C /repo show "${what#-R:}" | git -C $wt apply -R || { echo "cannot revert"; exit 2; }
 else
-  git apply "$what" || { echo "cannot apply"; git checkout -- .; exit 2; }
+  git -C $wt apply "$(realpath "$what")" || { echo "cannot apply"; exit 2; }
 fi
+# run from a scratch copy of the driver so that evidence/ and replays/ of /verif stay untouched
+mkdir -p /tmp/sens-verif-$$
 cd /verif
-timeout 1800 ./check "$id" "$@" > /tmp/sens.$$.out 2>&1
+for f in check checks.json KNOWN_FINDINGS.json; do ln -s /verif/$f /tmp/sens-verif-$$/$f; done
+ln -s /verif/sim /tmp/sens-verif-$$/sim
+mkdir -p /tmp/sens-verif-$$/.build; ln -sf /verif/.build/ident-cache.json /tmp/sens-verif-$$/.build/ident-cache.json 2>/dev/null
+cd /tmp/sens-verif-$$
+VERIF_REPO=$wt timeout 1800 python3 ./check "$id" "$@" > out.txt 2>&1
 rc=$?
-git -C /repo checkout -- . ; git -C /repo clean -fdq -- . 2>/dev/null
 echo "== $id on $what: exit=$rc"
-grep -E "^violation class|^KNOWN-FINDING|^INFRA" /tmp/sens.$$.out | cut -c1-260 | head -8
-rm -f /tmp/sens.$$.out
-# evidence files were rewritten by a run on a modified tree: restore them
-git -C /verif checkout -- evidence 2>/dev/null
+grep -E "^violation class|^KNOWN-FINDING|^INFRA" out.txt | cut -c1-260 | head -8
 exit 0
